@@ -343,6 +343,18 @@ def enumLine (stream : String) (idx : String) (rest : List String) : Unit × Str
 
 def step (stream : String) (_ : Unit) (ws : List String) : Unit × String × String × String :=
   match ws with
+  | ["idx", k] =>
+    -- witness of C02-index-before-commit (index pages are outside `content`): label L, index L.k,
+    -- commit node 1 {k:1}, then process death at I/O step k of the commit of node 2 {k:2}, whose
+    -- steps are: 9 log fragments (BeginTx, CreateNode, SetNodeProperty), the index leaf page, the
+    -- catalog page, 3 fragments of CommitTx, the log sync, the node table.  Model of the code as
+    -- it is: the entry is in the index as soon as the leaf page write (step 9) was performed.
+    match k.toNat? with
+    | none => ((), "bad-op", "-", "")
+    | some k =>
+      if k > 13 then ((), "bad-op", "-", "") else
+      let m := if k ≥ 10 then "indexed nonode" else "absent nonode"
+      ((), m, "absent nonode", if k ≥ 10 then "C02-index-before-commit" else "")
   | kind :: rest =>
     if kind != "scen" && kind != "scenq" then
       match kind, rest with
